@@ -15,6 +15,26 @@ if TYPE_CHECKING:
 logger = logging.getLogger(__name__)
 
 
+def _replace_represented(
+        dumper: 'Dumper', old_node: yaml.Node, new_node: Any) -> None:
+    """Makes later references to an object use its sweetened node.
+
+    PyYAML remembers the node it made for an object, and uses it
+    again if the object is referenced a second time. If sweetening
+    replaced that node by another one, then the other one is what
+    has to be used again.
+
+    Args:
+        dumper: The dumper that is dumping the object.
+        old_node: The node as it was before sweetening.
+        new_node: The node after sweetening.
+    """
+    if new_node is not old_node:
+        for key, node in dumper.represented_objects.items():
+            if node is old_node:
+                dumper.represented_objects[key] = new_node
+
+
 class Representer:
     """A yaml Representer class for user-defined types.
 
@@ -77,7 +97,9 @@ class Representer:
         cnode = Node(represented)
         self.__sweeten(dumper, self.class_, cnode)
         # __sweeten() checks this, so can cast safely
-        represented = cast(yaml.Node, cnode.yaml_node)
+        sweetened = cast(yaml.Node, cnode.yaml_node)
+        _replace_represented(dumper, represented, sweetened)
+        represented = sweetened
 
         logger.debug('End representing {}'.format(data))
         return represented
@@ -194,6 +216,7 @@ class UserStringRepresenter:
         snode = Node(represented)
         if hasattr(self.class_, '_yatiml_sweeten'):
             self.class_._yatiml_sweeten(snode)
+            _replace_represented(dumper, represented, snode.yaml_node)
             if not isinstance(snode.yaml_node, yaml.Node):
                 raise RuntimeError(
                         ('After sweetening an object of class {},'
